@@ -16,8 +16,9 @@ import (
 // C18 — tar detection tracks header checksum validity.
 //
 // Forward: every archive written by archive/tar (USTAR, PAX, GNU) is reported
-// as application/x-tar unless the reported root-level format precedes tar among
-// the root's children. Corruption: every single-byte change of the first block
+// as application/x-tar unless the reported root-level format has priority over tar (the 22 root formats in
+// front of tar at the verified commit, pinned; names such as BZh… / xar!… that begin like
+// LOWER-priority formats must still be tar). Corruption: every single-byte change of the first block
 // outside the checksum field (504 positions x 255 values, exhaustive per
 // archive) makes it no longer reported as tar.
 
@@ -30,7 +31,7 @@ type c18Payload struct {
 	InQ   string `json:"in_quoted"`
 }
 
-var c18Names = []string{"a.txt", "dir/", "src/main.go", "README", "ü/ö.txt", "日本語.txt", "PK\x03\x04.bin", "%PDF-1.4.pdf", "MZ", "\x7fELF", "GIF89a", "ID3", "BM", "long/" + strings.Repeat("n", 90), strings.Repeat("p/", 60) + "deep.txt", strings.Repeat("x", 100), strings.Repeat("y", 101), "portage/gpkg-1.0.3/README", "a/gpkg-1x", "gpkg-1", "x/gpkg-2", " lead", "trail ", "-dash", "#hash", "{\"a\":1}", "<html>", "name with spaces.tar"}
+var c18Names = []string{"BZhang/report.doc", "xar!/readme", "wOFF/font", "\x1f\x8b.gz", "Rar!/x", "fLaC", "a.txt", "dir/", "src/main.go", "README", "ü/ö.txt", "日本語.txt", "PK\x03\x04.bin", "%PDF-1.4.pdf", "MZ", "\x7fELF", "GIF89a", "ID3", "BM", "long/" + strings.Repeat("n", 90), strings.Repeat("p/", 60) + "deep.txt", strings.Repeat("x", 100), strings.Repeat("y", 101), "portage/gpkg-1.0.3/README", "a/gpkg-1x", "gpkg-1", "x/gpkg-2", " lead", "trail ", "-dash", "#hash", "{\"a\":1}", "<html>", "name with spaces.tar"}
 
 func c18Header(r *rand.Rand) *tar.Header {
 	h := &tar.Header{
@@ -149,7 +150,15 @@ func c18Forward(c *fw.Ctx, t *lib.Tree, kind string, a []byte, tag string) bool 
 		good = false
 		path := t.PathOfChain(ch)
 		tarID := t.Find("application/x-tar", ".tar")
-		if path != nil && len(path) >= 2 && t.ChildIndex(path[1]) < t.ChildIndex(tarID) {
+		pinned := false
+		if path != nil && len(path) >= 2 {
+			for _, n := range pinnedBeforeTar {
+				if t.Nodes[path[1]].MIME == n {
+					pinned = true
+				}
+			}
+		}
+		if pinned && t.ChildIndex(path[1]) < t.ChildIndex(tarID) {
 			c.Count("exception_higher_priority_format", 1)
 			c.SetAdd("exception_formats", t.Nodes[path[1]].MIME)
 			continue
@@ -235,7 +244,7 @@ func init() {
 	fw.Register(&fw.Prop{
 		ID:    "C18",
 		Level: "exploration",
-		Rule: "archives are written by archive/tar from random headers: formats USTAR / PAX / GNU / auto, 28 member names (long, UTF-8, names that begin like other formats: PK\\x03\\x04, %PDF-, MZ, ELF, GIF89a, ID3, BM; names containing /gpkg-1 followed by further characters), modes, uid/gid up to and beyond 2^21 (base-256 fields), sizes 0 … 2^40 (base-256 above 8 GiB), mtimes incl. > 2^33 and sub-second (PAX), all type flags with link names and device numbers, PAX records, one or two members; each is detected at limits {0, 3072, 512, len, len+1}; then for the first block EVERY position outside 148-155 x EVERY other byte value (504 x 255 = 128 520 corruptions, exhaustive per archive) must not be reported as tar. " +
+		Rule: "archives are written by archive/tar from random headers: formats USTAR / PAX / GNU / auto, 28 member names (long, UTF-8, names that begin like higher-priority formats (PK\\x03\\x04, %PDF-, MZ, ELF, GIF89a) and like lower-priority ones (BZh, xar!, wOFF, gzip, Rar!, fLaC, ID3, BM); names containing /gpkg-1 followed by further characters), modes, uid/gid up to and beyond 2^21 (base-256 fields), sizes 0 … 2^40 (base-256 above 8 GiB), mtimes incl. > 2^33 and sub-second (PAX), all type flags with link names and device numbers, PAX records, one or two members; each is detected at limits {0, 3072, 512, len, len+1}; then for the first block EVERY position outside 148-155 x EVERY other byte value (504 x 255 = 128 520 corruptions, exhaustive per archive) must not be reported as tar. " +
 			"non-trivial = an archive that is reported as tar and was put through the exhaustive corruption sweep (counted once per archive, archives are distinct by construction); plus distinct (format, type flag, has high bytes) classes.",
 		Assumptions: []string{
 			"archive/tar is the conforming writer; header combinations it refuses are not archives",
